@@ -17,6 +17,11 @@ UNREACHABLE_LEAVES = {"CastFailed"}
 DEBUG_EXCEPTIONS = {("render_parse_error", "lexer::Token")}
 
 
+def ops_block_constructs(prog, f, bb):
+    import ops
+    return ops.block_constructs(prog, f, bb)
+
+
 def renderers(prog):
     out = []
     for f in prog.hand_fns():
@@ -62,6 +67,16 @@ def rule_L1(ctx):
                             base = (p[0], projs[:j])
                             if f.canon(base) == cp:
                                 reads.add(pr[1])
+        # iterative peelers: a function that hands the boxed source back
+        # (`Ok((layer, source))` / `Some(source)`) to a caller that calls it
+        # again in a loop, instead of recursing
+        self_rec = any((not c.is_ptr) and c.res in rpaths for c in f.calls())
+        driver_loops = False
+        if not self_rec:
+            for c in prog.callers_of(f.path):
+                if c.fn.in_any_loop(c.bb):
+                    driver_loops = True
+            r.inst("%s peels one layer per call; called in a loop: %s" % (f.path, driver_loops))
         for v in sorted(es.wrappers):
             blocks = vf.blocks_for((v,))
             recursive = False
@@ -70,6 +85,12 @@ def rule_L1(ctx):
                 if c is not None and not c.is_ptr and c.res in rpaths:
                     recursive = True
                     break
+            if not self_rec and driver_loops:
+                for bb in blocks:
+                    bc = ops_block_constructs(prog, f, bb)
+                    if ("std::result::Result", "Ok") in bc or ("std::option::Option", "Some") in bc:
+                        recursive = True
+                        break
             r.inst("%s: variant %s peeled=%s recurses=%s"
                    % (f.path, v, v in reads, recursive))
             if v in reads and recursive:
